@@ -22,11 +22,34 @@ def build():
     return _built["ok"]
 
 
+ATARGET = os.path.join(ROOT, ".build", "replay-async-target")
+ABIN = os.path.join(ATARGET, "release", "replay-async")
+_abuilt = {"ok": None, "log": ""}
+
+
+def build_async():
+    """/verif/replay-async: indicatif with its `tokio` feature, compiled against a signature-only
+    stand-in for tokio::io (the tokio crate is not available offline)."""
+    if _abuilt["ok"] is not None:
+        return _abuilt["ok"]
+    env = dict(os.environ, CARGO_NET_OFFLINE="true")
+    p = subprocess.run(["cargo", "build", "--offline", "--release", "--target-dir", ATARGET],
+                       cwd=os.path.join(ROOT, "replay-async"), env=env, capture_output=True, text=True)
+    _abuilt["ok"] = p.returncode == 0
+    _abuilt["log"] = (p.stdout + p.stderr)[-3000:]
+    return _abuilt["ok"]
+
+
 def run_routine(routine, args=(), timeout=300):
-    if not build():
+    binary = BIN
+    if routine.startswith("async_"):
+        if not build_async():
+            return {"found": False, "error": "replay-async driver does not build against the current tree", "log": _abuilt["log"]}
+        binary = ABIN
+    elif not build():
         return {"found": False, "error": "replay driver does not build against the current tree", "log": _built["log"]}
     try:
-        p = subprocess.run([BIN, routine] + list(args), capture_output=True, text=True, timeout=timeout)
+        p = subprocess.run([binary, routine] + list(args), capture_output=True, text=True, timeout=timeout)
     except subprocess.TimeoutExpired:
         return {"found": False, "error": "witness routine %s timed out" % routine}
     out = p.stdout.strip().splitlines()
